@@ -117,7 +117,7 @@ func main() {
 			singleN = len(xs)
 			repRej, repAcc = judgeSingle(r, xs, singleClasses)
 			for _, x := range xs {
-				if x.Second == 2 && x.First == 1 {
+				if x.Second == 2 && x.First == 1 && x.Layout == "" {
 					samples.Add(x)
 				}
 				if x.Scenario == "pool-pool" && x.RepeatAccepted {
@@ -153,15 +153,15 @@ func main() {
 	}
 	sort.Strings(sites)
 	r.Assume = append(r.Assume,
-		"required number = the agreement count the configuration defines for the era (2/3 of the council; +1 where the rule says so); before the restriction height a repeated signer index is tolerated (legacy behaviour pinned by the repository's own test), an index that names no arbiter is not",
+		"required number, per height, from the parameters: 2/3 of the council from CRClaimDPOSNodeStartHeight up to but excluding DPOSNodeCrossChainHeight (V1: everywhere below it), 2/3+1 before and from DPOSNodeCrossChainHeight on; a named start height belongs to the era it starts; before the restriction height a repeated signer index is tolerated (legacy behaviour pinned by the repository's own test), an index that names no arbiter is not",
 		"a panic of the checker (before the C03 repair: out-of-range signer index before the restriction height) counts as 'not accepted' here and is counted in checker_panics",
 		"part (a) judges SpecialContextCheck verdicts (signatures are verified later by the common path); part (b) uses fully signed transactions through CheckTransactionSanity/CheckTransactionContext, CheckDuplicateTx and TxPool.AppendToTxPoolWithoutEvent",
 		"ArbitratorsMock reports the current arbitrators as the cross-chain arbiters; the CRC arbitrators are set to the same keys")
 	r.Finish(evid.Coverage{
 		"evaluations":         evals + int64(singleN),
 		"distinct_nontrivial": classes.Len() + singleClasses.Len(),
-		"rule": "(a) SpecialContextCheck verdicts: V2 signer lists (all lists of length <=4 over {0,1,n-1,n,255}; n=12: appended to 8 distinct existing signers) x {R-1,R,R+1} x 3 eras x 6 program variants x 6 reference mixes (quick: variants crossed one dimension at a time); V0/V1: 9 key-list variants x m in {1,req-1,req,req+1,n,n+1} x n byte in {len,len+1,len-1} x {single, valid-first, valid-last} x reference mixes x 3 eras x 3 heights; accepted => oracle clauses. " +
-			"(b) 3x3 (first, repeat) payload versions x {later-block, same-block, pool-after-chain, pool-pool} with fully signed transactions; a repeat must be refused, controls (first, fresh hash) must be accepted. non-trivial = distinct (version, era, band, variant, verdict) classes",
+		"rule": "(a) SpecialContextCheck verdicts: V2 signer lists (all lists of length <=4 over {0,1,n-1,n,255}; n=12: appended to 8 distinct existing signers) x 4 eras (3 at {R-1,R,R+1}; the boundary era at -1/=/+1 around CRClaimDPOSNodeStartHeight and DPOSNodeCrossChainHeight) x 6 program variants x 6 reference mixes (quick: variants crossed one dimension at a time); V0/V1: 9 key-list variants x m in {1,req-1,req,req+1,n,n+1} x n byte in {len,len+1,len-1} x {single, valid-first, valid-last} x reference mixes x 4 eras x their heights; accepted => oracle clauses. " +
+			"(b) 3x3 (first, repeat) payload versions x {later-block, same-block, pool-after-chain, pool-pool} with fully signed transactions, plus 8 output layouts (repeated hash among change and other withdraw outputs) per version pair; a repeat must be refused, controls (first, fresh hash) must be accepted. non-trivial = distinct (version, era, band, variant, verdict) classes",
 		"exhaustive":                 true,
 		"verdicts":                   evals,
 		"verdicts_accepted":          accepted,
@@ -225,7 +225,7 @@ func replay(r *evid.Run, scr string) {
 		xs := runSingle(scr)
 		var sel []singleRes
 		for _, x := range xs {
-			if x.Scenario == c.Scenario && x.First == c.First && x.Second == c.Second {
+			if x.Scenario == c.Scenario && x.First == c.First && x.Second == c.Second && x.Layout == c.Layout {
 				fmt.Printf("%+v\n", x)
 				sel = append(sel, x)
 			}
